@@ -50,6 +50,11 @@ pub enum Backend {
     HybridPre,
     HybridNoPre,
     FromBio,
+    /// native object whose diagram store got a listener (`bdd.set_sender`) that has hung up already: every node created
+    /// from now on is reported to a closed channel
+    NativeDeaf,
+    /// the same on a bridged object
+    HybridDeaf,
 }
 pub const NATIVE_LIKE: [Backend; 4] = [
     Backend::Native,
@@ -64,6 +69,13 @@ pub fn build_native_like(parser: &AdfParser, b: Backend) -> Adf {
         Backend::HybridPre => BdAdf::from_parser(parser).hybrid_step(),
         Backend::HybridNoPre => BdAdf::from_parser(parser).hybrid_step_opt(false),
         Backend::FromBio => Adf::from_biodivine(&BdAdf::from_parser(parser)),
+        Backend::NativeDeaf | Backend::HybridDeaf => {
+            let mut a = if b == Backend::NativeDeaf { Adf::from_parser(parser) } else { BdAdf::from_parser(parser).hybrid_step_opt(false) };
+            let (s, r) = crossbeam_channel::unbounded();
+            a.bdd.set_sender(s);
+            drop(r);
+            a
+        }
         Backend::Bio => unreachable!(),
     }
 }
@@ -124,6 +136,8 @@ fn c01_check(c: &SemCase, st: &mut Stats, large: bool) -> CheckResult {
             ("hybrid(pre-grounded)", Backend::HybridPre),
             ("hybrid(no pre-grounding)", Backend::HybridNoPre),
             ("from_biodivine", Backend::FromBio),
+            ("native, listener hung up", Backend::NativeDeaf),
+            ("hybrid, listener hung up", Backend::HybridDeaf),
         ] {
             let mut a = build_native_like(p, b);
             let an = sut::names_of(&a);
@@ -238,6 +252,8 @@ fn c02_check(c: &SemCase, st: &mut Stats) -> CheckResult {
             ("hybrid(pre-grounded)", Backend::HybridPre),
             ("hybrid(no pre-grounding)", Backend::HybridNoPre),
             ("from_biodivine", Backend::FromBio),
+            ("native, listener hung up", Backend::NativeDeaf),
+            ("hybrid, listener hung up", Backend::HybridDeaf),
         ] {
             let mut a = build_native_like(p, b);
             answers.push((nm, a.complete().collect()));
@@ -407,7 +423,7 @@ pub fn sem_case_wide_core(lo: usize, hi: usize, hang: usize) -> BoxedStrategy<Se
         .prop_map(|(acs, sort)| {
             let mut adf = gen::AdfCase::simple(acs);
             // zero-padded labels: every sort mode keeps the generated order (dependencies stay local in the variable order)
-            adf.labels = (0..adf.acs.len()).map(|i| format!("w{i:03}")).collect();
+            adf.labels = (0..adf.acs.len()).map(|i| format!("w{i:04}")).collect();
             SemCase { adf, sort }
         })
         .boxed()
@@ -417,7 +433,7 @@ pub fn sem_case_wide_chains(lo: usize, hi: usize) -> BoxedStrategy<SemCase> {
     (gen::adf_core_chains(lo, hi), sort_strategy())
         .prop_map(|(acs, sort)| {
             let mut adf = gen::AdfCase::simple(acs);
-            adf.labels = (0..adf.acs.len()).map(|i| format!("w{i:03}")).collect();
+            adf.labels = (0..adf.acs.len()).map(|i| format!("w{i:04}")).collect();
             SemCase { adf, sort }
         })
         .boxed()
@@ -449,6 +465,8 @@ fn c03_check(c: &SemCase, st: &mut Stats) -> CheckResult {
             ("hybrid(pre)", Backend::HybridPre),
             ("hybrid(nopre)", Backend::HybridNoPre),
             ("from_biodivine", Backend::FromBio),
+            ("native, listener hung up", Backend::NativeDeaf),
+            ("hybrid, listener hung up", Backend::HybridDeaf),
         ] {
             let mut a = build_native_like(p, b);
             answers.push((format!("{nm}.stable()"), a.stable().collect()));
@@ -588,6 +606,8 @@ pub fn c03(tier: Tier) -> PropSpec {
         Part::new("grown-container", tier.pick(3000, 30000), || sem_case(1, 6), c03_grown_check),
         // more statements than a machine word has bits, models that differ only in the first / last declared statements
         Part::with_shrink("wide-core", tier.pick(500, 5000), 60, || sem_case_wide_core(62, 140, 5), c03_check),
+        // more than a thousand statements (a diagram edge that skips 1024 and more variables)
+        Part::with_shrink("very-wide-core", tier.pick(16, 160), 10, || sem_case_wide_core(1030, 1100, 3), c03_check),
         Box::new(Logged(Part::new("small-with-logging", tier.pick(1500, 15000), || sem_case(1, 5), c03_check))),
         crate::props::cli::sem_cli_part("cli-stm", &[crate::props::cli::Flag::Stm, crate::props::cli::Flag::StmPre, crate::props::cli::Flag::StmRew, crate::props::cli::Flag::StmRew2], tier.pick(150, 1500))],
     }
@@ -609,6 +629,8 @@ fn c04_check(c: &SemCase, st: &mut Stats) -> CheckResult {
             ("hybrid(pre)", Backend::HybridPre),
             ("hybrid(nopre)", Backend::HybridNoPre),
             ("from_biodivine", Backend::FromBio),
+            ("native, listener hung up", Backend::NativeDeaf),
+            ("hybrid, listener hung up", Backend::HybridDeaf),
         ] {
             let mut a = build_native_like(p, b);
             // classification from the public API: which branch would the first choice take
@@ -790,7 +812,7 @@ fn c05_check(c: &C05Case, st: &mut Stats) -> CheckResult {
     let und = grd.iter().filter(|t| !t.decided()).count();
     // wide ADFs (parts wide-core / wide-chains): few statements on cycles, everything else follows by propagation
     let limit = if n > 16 { 4000 * n as u64 } else { 2 * (2 * n as u64 + 4) * (pow3(n) + 1) };
-    let backend = [Backend::Native, Backend::HybridPre, Backend::HybridNoPre, Backend::FromBio][(c.backend % 4) as usize];
+    let backend = [Backend::Native, Backend::HybridPre, Backend::HybridNoPre, Backend::FromBio, Backend::NativeDeaf, Backend::HybridDeaf][(c.backend % 6) as usize];
     let res = sut::with_parser(&text, c.sem.sort, |p| -> Result<(u64, u64), String> {
         let names = parser_names(p);
         let perm = sut::perm_from_names(&names, &c.sem.adf.labels)?;
@@ -971,7 +993,7 @@ pub fn c05(tier: Tier) -> PropSpec {
             tier.pick(150000, 2000000),
             300,
             move || {
-                (sem_case(1, hi), heu_strategy(), prop_oneof![4 => Just(NgMode::StableIter), 4 => Just(NgMode::StableChannel), 4 => Just(NgMode::TwoValChannel), 1 => (0u8..3).prop_map(NgMode::StableBounded), 1 => (0u8..3).prop_map(NgMode::TwoValBounded)], 0u8..4)
+                (sem_case(1, hi), heu_strategy(), prop_oneof![4 => Just(NgMode::StableIter), 4 => Just(NgMode::StableChannel), 4 => Just(NgMode::TwoValChannel), 1 => (0u8..3).prop_map(NgMode::StableBounded), 1 => (0u8..3).prop_map(NgMode::TwoValBounded)], 0u8..6)
                     .prop_map(|(sem, heu, mode, backend)| C05Case { sem, heu, mode, backend })
                     .boxed()
             },
@@ -983,7 +1005,7 @@ pub fn c05(tier: Tier) -> PropSpec {
             tier.pick(2500, 25000),
             100,
             || {
-                (sem_case_many_models(6, 9), heu_strategy(), prop_oneof![Just(NgMode::StableIter), Just(NgMode::StableChannel), Just(NgMode::TwoValChannel)], 0u8..4)
+                (sem_case_many_models(6, 9), heu_strategy(), prop_oneof![Just(NgMode::StableIter), Just(NgMode::StableChannel), Just(NgMode::TwoValChannel)], 0u8..6)
                     .prop_map(|(sem, heu, mode, backend)| C05Case { sem, heu, mode, backend })
                     .boxed()
             },
@@ -996,7 +1018,7 @@ pub fn c05(tier: Tier) -> PropSpec {
             tier.pick(600, 6000),
             60,
             || {
-                (sem_case_wide_core(60, 140, 5), heu_strategy(), prop_oneof![Just(NgMode::StableIter), Just(NgMode::StableChannel), Just(NgMode::TwoValChannel)], 0u8..4)
+                (sem_case_wide_core(60, 140, 5), heu_strategy(), prop_oneof![Just(NgMode::StableIter), Just(NgMode::StableChannel), Just(NgMode::TwoValChannel)], 0u8..6)
                     .prop_map(|(sem, heu, mode, backend)| C05Case { sem, heu, mode, backend })
                     .boxed()
             },
@@ -1007,8 +1029,32 @@ pub fn c05(tier: Tier) -> PropSpec {
             tier.pick(600, 6000),
             60,
             || {
-                (sem_case_wide_chains(58, 135), heu_strategy(), prop_oneof![Just(NgMode::StableIter), Just(NgMode::StableChannel), Just(NgMode::TwoValChannel)], 0u8..4)
+                (sem_case_wide_chains(58, 135), heu_strategy(), prop_oneof![Just(NgMode::StableIter), Just(NgMode::StableChannel), Just(NgMode::TwoValChannel)], 0u8..6)
                     .prop_map(|(sem, heu, mode, backend)| C05Case { sem, heu, mode, backend })
+                    .boxed()
+            },
+            c05_check,
+        ),
+        // thousands of learned nogoods: 11..12 self-supporting statements (2^11 / 2^12 two-valued models) and a few
+        // statements computed from them
+        Part::with_shrink(
+            "long-runs",
+            tier.pick(8, 160),
+            4,
+            || {
+                (prop_oneof![4 => Just(11usize), 1 => Just(12usize)], proptest::collection::vec((0u8..3, any::<u16>()), 0..3), heu_strategy(), prop_oneof![2 => Just(NgMode::TwoValChannel), 1 => Just(NgMode::StableIter)], 0u8..6)
+                    .prop_map(|(k, extra, heu, mode, backend)| {
+                        let mut acs: Vec<F> = (0..k).map(F::Atom).collect();
+                        for (kind, a) in extra {
+                            let x = F::Atom(gen::pick(a, k));
+                            acs.push(match kind {
+                                0 => x,
+                                1 => F::not(x),
+                                _ => F::or(x.clone(), F::not(x)),
+                            });
+                        }
+                        C05Case { sem: SemCase { adf: gen::AdfCase::simple(acs), sort: Sort::None }, heu, mode, backend }
+                    })
                     .boxed()
             },
             c05_check,
@@ -1018,13 +1064,14 @@ pub fn c05(tier: Tier) -> PropSpec {
             tier.pick(3000, 30000),
             200,
             || {
-                (sem_case(1, 5), heu_strategy(), prop_oneof![Just(NgMode::StableIter), Just(NgMode::TwoValChannel)], 0u8..4)
+                (sem_case(1, 5), heu_strategy(), prop_oneof![Just(NgMode::StableIter), Just(NgMode::TwoValChannel)], 0u8..6)
                     .prop_map(|(sem, heu, mode, backend)| C05Case { sem, heu, mode, backend })
                     .boxed()
             },
             c05_check,
         ))),
-        crate::props::cli::sem_cli_part("cli-stmng", &[crate::props::cli::Flag::StmNg, crate::props::cli::Flag::TwoVal], tier.pick(150, 1500))],
+        crate::props::cli::sem_cli_part("cli-stmng", &[crate::props::cli::Flag::StmNg, crate::props::cli::Flag::TwoVal], tier.pick(150, 1500)),
+        crate::props::cli::wide_cli_part("cli-wide", tier.pick(16, 480))],
     }
 }
 
